@@ -74,3 +74,13 @@ CORPUS += [
         "        self.branch_count = tree.taxa_count * 2 - 2\n        self._view = self._rates.tensor.expand([-1] * (self._rates.tensor.dim() - 1) + [self.branch_count])\n\n    @property\n    def cached_rates(self) -> torch.Tensor:\n        return self._view\n\n    @property\n    def rates(self) -> torch.Tensor:\n        return self._rates.tensor.expand(",
         mode='text', expect=[('C01.H', 'StrictClockModel.__init__::self._view-is-not-a-snapshot-of-a-parameter')]),
 ]
+CORPUS += [
+    Mut('c01-tip-states-clamped-at-the-last-real-state', 'torchtree/evolution/site_pattern.py', '', "    partials = []\n\n    for taxon in alignment.taxa:\n        partials.append(\n            torch.clamp(\n",
+        "    partials = []\n    max_state = alignment.data_type.state_count - 1\n\n    for taxon in alignment.taxa:\n        partials.append(\n            torch.clamp(\n",
+        mode='text', more=[{'old': "                max=alignment.data_type.state_count,\n            )\n        )\n    return partials, weights", 'new': "                max=max_state,\n            )\n        )\n    return partials, weights", 'mode': 'text'}],
+        expect=[('C01.W', 'tip-states::compress_alignment_states::clamped-at-state-count')]),
+    Mut('c01-benign-tip-state-bound-through-a-local-name', 'torchtree/evolution/site_pattern.py', '', "    partials = []\n\n    for taxon in alignment.taxa:\n        partials.append(\n            torch.clamp(\n",
+        "    partials = []\n    unknown = alignment.data_type.state_count\n\n    for taxon in alignment.taxa:\n        partials.append(\n            torch.clamp(\n",
+        mode='text', more=[{'old': "                max=alignment.data_type.state_count,\n            )\n        )\n    return partials, weights", 'new': "                max=unknown,\n            )\n        )\n    return partials, weights", 'mode': 'text'}],
+        benign=True),
+]
